@@ -705,6 +705,27 @@ def run(ctx, prog):
                       '(and WAL compaction) between parent and incremental, restore succeeds but start-up from the restored directory is refused')
                      if not (reads_latest and snap_push) else
                      'reads manifest.latest_snapshot: %s; compares with parent.snapshot_file: %s; snapshot entries: %d; metadata.snapshot_file = %s' % (reads_latest, reads_parent_snap, len(snap_push), rec))
+            # path form: the serialized MANIFEST is pushed only (i) behind the push of the snapshot it names, or (ii) across the edge on which the parent's recorded
+            # snapshot EQUALS that name, or (iii) when the MANIFEST names no snapshot. A parent that records no snapshot (an incremental that shipped none, a full
+            # backup taken before the first snapshot) holds nothing: that case must take the push, not skip it.
+            man_push = [c for c in f.calls if c.is_('backup::ArchiveEntry::from_bytes') and len(c.args) > 1 and re.search(r'ser::to_vec(_pretty)?\(', flow.render(fo.of_operand(c.args[1])))]
+            none_e = set(util.option_edges(f, r'Manifest\.latest_snapshot$', 'None'))
+            eq_e = set()
+            for i_, blk in enumerate(f.blocks):
+                if blk['t']['k'] == 'switch' and i_ in f.live_blocks():
+                    for tg, pr in flow.switch_edge_predicates(f, i_, fo):
+                        if pr.startswith('eq[') and 'BackupMetadata.snapshot_file' in pr and 'Manifest.latest_snapshot' in pr:
+                            eq_e.add((i_, tg))
+            if not man_push:
+                ctx.missing('C12.R5', '%s: push of the serialized MANIFEST' % f.short)
+            else:
+                tv12 = flow.ThreadedView(f)
+                r12 = tv12.reach([0], avoid_blocks=[c.bb for c in snap_push], avoid_edges=none_e | eq_e)
+                bad12 = [c for c in man_push if c.bb in r12]
+                ctx.inst('C12.R5', f.short, 'the MANIFEST is archived only behind the snapshot it names, or where the parent records that very snapshot', bool(none_e) and not bad12,
+                         ('the MANIFEST push at %s is reachable with a snapshot named, no snapshot entry pushed and the parent not known to hold that snapshot (e.g. a parent whose '
+                          'metadata records no snapshot): the restored directory names a snapshot no archive of the chain contains' % bad12[0].loc) if bad12 else
+                         ('no test of manifest.latest_snapshot found' if not none_e else '%d equality edge(s), %d snapshot push(es) cut every other path' % (len(eq_e), len(snap_push))))
         else:
             ctx.inst('C12.R5', f.short, 'ships the snapshot named by the archived MANIFEST', reads_latest and bool(snap_push), 'snapshot entries: %d' % len(snap_push))
     # ------------------------------------------------------------------ R6 which log segments an incremental ships
